@@ -694,19 +694,19 @@ def coq_bool(line, model_out):
 
 
 LEVEL_TEXT = ("Coq theorems (no axioms) about a faithful executable model of BitBufReader and of the bitstream_io / std code under it: for every state "
-              "satisfying the invariant (all byte strings, all short-read patterns, all histories) and every capacity >= 16, a requested refill "
-              "preserves the abstraction `unread buffer bits ++ bits of the undelivered bytes` (C19_refill_preserves_abs, C19_refill_on_request); read(n<=64), "
+              "satisfying the invariant (all byte strings, all short-read patterns, all histories) every refill (at any position, full buffer included; any capacity) "
+              "preserves the abstraction `unread buffer bits ++ bits of the undelivered bytes` (C19_refill_preserves_abs) and for capacity >= 16 a request for r <= 121 bits leaves r bits buffered or the source "
+              "exhausted (C19_refill_on_request); read(n<=64), "
               "read_bit and read_huffman return the first bits of it as the number sum bit_i 2^i and advance it (C19_read_is_ideal); TruncatedChunk is "
               "reported iff it is too short (C19_eof_only_when_exhausted); buffer-only accessors inside an announced read-ahead, and one pixel-loop iteration "
               "with the code's read-ahead formula (<= 81 bits, 81+7 <= 128), agree with the ideal reader (C19_readahead_sufficient, "
               "C19_entropy_iteration_within_readahead); any consumer decision tree gives the same result for all capacities >= 16 and all chunkings "
-              "(C19_verdict_capacity_independent). Plus C19_refill_any_position_refuted: a bare fill_buf on a full buffer loses the rest of the source "
-              "(public API only). Model tied to the code by a differential check through the public API (exhaustive small domain, refill-boundary lattice, "
-              "seeded random field sequences, capacities 16..64 and 4096) and in situ through LosslessImage::read at every capacity against 4096.")
+              "(C19_verdict_capacity_independent). Model tied to the code by a differential check through the public API (exhaustive small domain, refill-boundary lattice, "
+              "seeded random field sequences, capacities 16..64 and 4096) and in situ through LosslessImage::read and, under the capacity hook, whole files through webpsan::sanitize, at every capacity against 4096.")
 LEVEL_NOTE = ("Trusted: Coq kernel; the hand-written model (incl. bitstream_io/std behaviour, tied by correspondence only); the specification file; extraction and the "
               "OCaml driver; the Rust harness; the Python oracle and VP8L stream writer. No axioms. read_huffman is modelled over an abstract decoder "
               "(contract decoder_ok); the Huffman tree model is C18's. LosslessImage::read is not modelled here: capacity independence of the real "
               "decoder is sampled in situ, and proved for every consumer expressible as a decision tree obeying the read-ahead discipline. "
-              "Whole-file in situ under the capacity hook is skipped until the hook exists (`no-hook`). I/O errors inside fill_buf are out of scope (C13).")
+              "I/O errors inside fill_buf are out of scope (C13).")
 TECHNIQUE = "Coq proof (simulation against an ideal bit list, induction over consumer programmes) + differential check of the extracted model vs Rust + in-situ capacity sweep"
 DESIGN_REF = "DESIGN.md section 7 (C19), section 9, Appendix A/B"
